@@ -152,3 +152,35 @@ c.crosscheck = False
 c.ensures('one-job-per-file-in-order', "len(ghost('queued')) == 3 and ghost('queued')[0] is not ghost('queued')[1] and ghost('queued')[1] is not ghost('queued')[2] "
           "and ghost('queued')[0] is not ghost('queued')[2] and len(ghost('queued')[0].loaded) == 1 and ghost('queued')[0].loaded[0] == _f0 "
           "and len(ghost('queued')[1].loaded) == 1 and ghost('queued')[1].loaded[0] == _f1 and len(ghost('queued')[2].loaded) == 1 and ghost('queued')[2].loaded[0] == _f2")
+
+
+# ---- Routine.has_param: names are compared exactly (parameters `level` and `Level` are two parameters)
+c = contract(RT, 'case_matters', serves=['C16', 'C03', 'C06'], name='lemma:Routine: level and Level are different parameters', src='''
+def case_matters():
+    r = Routine('mix')
+    r.add_param('level')
+    return (r.has_param('level'), r.has_param('Level'), r.has_param('LEVEL'), r.has_param('leve'))
+''')
+c.setup(lambda b, case: {})
+c.ensures('exact-comparison', 'result[0] is True and result[1] is False and result[2] is False and result[3] is False')
+
+# ---- the keywords that can start a command (a definition followed by one of them defines a one-command routine)
+TK = 'bardolph/parser/token.py'
+c = contract(TK, 'starts_a_command', serves=['C06', 'C14', 'C16'], name='lemma:TokenTypes.is_executable: exactly the command keywords', src='''
+def starts_a_command():
+    return [t.name for t in TokenTypes if t.is_executable()]
+''')
+c.setup(lambda b, case: {})
+COMMANDS = ('ASSIGN', 'BREAKPOINT', 'GET', 'IF', 'OFF', 'ON', 'PRINT', 'PRINTF', 'PRINTLN', 'PAUSE', 'REGISTER', 'REPEAT', 'SET', 'STAGE', 'UNITS', 'WAIT')
+c.ensures('every-command-keyword', ' and '.join("'%s' in result" % n for n in COMMANDS))
+c.ensures('and-no-value-or-punctuation-class', ' and '.join("not ('%s' in result)" % n for n in ('NAME', 'NUMBER', 'LITERAL_STRING', 'MARK', 'EOF', 'END', 'BEGIN', 'WITH', 'AND', 'OR', 'AS', 'TO', 'FROM', 'ELSE', 'DEFINE', 'TIME_PATTERN')))
+
+# ---- a matrix can always be written to the log, whatever numbers its cells hold (the fake lights log every matrix they get)
+CMX = 'bardolph/controller/color_matrix.py'
+c = contract(CMX, 'ColorMatrix.__str__', serves=['C15', 'C14', 'C12'])
+def _setup(b, case):
+    cell = lambda tag: PyList([b.sym(k, '%s%d' % (tag, i)) for i, k in enumerate(('real', 'int', 'real', 'int'))])
+    return {'self': lib.color_matrix(b, 1, 3, [cell('a'), None, cell('c')])}
+c.setup(_setup)
+c.bounded('1 x 3 matrix, cells with float and int components and an unset cell')
+c.ensures('some-text-no-exception', 'result is not None')
